@@ -323,6 +323,13 @@ pub struct Features {
     pub max_depth: u32,
 }
 
+impl Features {
+    /// no count-related directive at all (used to keep the undecorated structures in focused corpora)
+    pub fn layerless(&self) -> bool {
+        self.count_output + self.count_filter + self.count_tag + self.filters_var + self.filters_tag == 0
+    }
+}
+
 pub fn features(q: &Query) -> Features {
     fn walk(n: &Node, depth: u32, fold_depth: u32, f: &mut Features) {
         f.max_depth = f.max_depth.max(depth);
